@@ -1,7 +1,7 @@
 LIBS = ["libvpsc", "libcola", "libavoid", "libtopology", "libdialect"]
 HARNESS = "harness/c18.cpp"
 DRIVER_MODE = "c18"
-LEAN_MODULES = ["AdaptaVerif.Props.C18", "AdaptaVerif.Props.C18Tie", "AdaptaVerif.Props.C18Tie2", "AdaptaVerif.Props.C18Ids"]
+LEAN_MODULES = ["AdaptaVerif.Props.C18", "AdaptaVerif.Props.C18Tie", "AdaptaVerif.Props.C18Tie2", "AdaptaVerif.Props.C18Tie3", "AdaptaVerif.Props.C18Ids"]
 LEVEL = "proof"
 
 # Which `flippedRetrieval` semantics of SepMatrix::getSepPair the C++ in /repo is expected to follow:
@@ -56,12 +56,13 @@ EXPLANATION = ("table class is exhaustive over direction x relation x gap type x
 def regenerate(ROOT, REPO):
     """the SepDir switch kernels (negateSepDir, sepDirIsCardinal, lateralWeakening, cardinalStrengthening)
     and SepPair::transform (switch with break arms mutating members, double as signed-zero SZ) are regenerated from
-    constraints.cpp by cpp2lean on every run and proved equal to Model/Sep.lean (Props/C18Tie.lean, C18Tie2.lean)"""
+    constraints.cpp by cpp2lean on every run and proved equal to Model/Sep.lean (Props/C18Tie.lean, C18Tie2.lean);
+    so is SepPair::generateSeparationConstraint (job sepgen, Props/C18Tie3.lean)"""
     import sys
     from pathlib import Path
     sys.path.insert(0, str(Path(ROOT) / "tools" / "cpp2lean"))
     import jobs
-    return jobs.regenerate(["sepdir", "seppair"], Path(ROOT), Path(REPO))
+    return jobs.regenerate(["sepdir", "seppair", "sepgen"], Path(ROOT), Path(REPO))
 
 
 def plan(tier, seed, searching):
